@@ -706,9 +706,6 @@ func cdecOp(c *Ctx, op string) {
 			c.Fail("client-non200-success", op, ans, "a non-200 response was reported as success")
 		} else if w, _, ok := errView(v.err); ok && !carriesError {
 			want := httpStatusCode(proto, r.status)
-			if enc := r.header["Content-Encoding"]; proto == "connect" && kind == "unary" && len(enc) > 0 && enc[0] != "identity" && enc[0] != "gzip" && enc[0] != "rle" {
-				want = 13 // unknown encoding is reported first
-			}
 			if w.code != want {
 				c.Fail("client-non200-code", op, ans, fmt.Sprintf("a non-200 response without a protocol-level error must get the code derived from the HTTP status (%d)", want))
 			}
@@ -1872,6 +1869,119 @@ func malformedErrorBodyProbes(c *Ctx) {
 	}
 }
 
+// repeatedReceiveProbe (F24): a client that asks again after the end of the stream - a loop with
+// one iteration too many, an interceptor that drains - must not change what the call reports:
+// the trailers the handler set stay what they are, value for value.
+func repeatedReceiveProbe(c *Ctx) {
+	for _, proto := range []string{"connect", "grpc", "grpcweb"} {
+		for _, failing := range []bool{false, true} {
+			h := connect.NewBidiStreamHandler("/s/m", func(ctx context.Context, s *connect.BidiStream[[]byte, []byte]) error {
+				for {
+					if _, err := s.Receive(); err != nil {
+						break
+					}
+				}
+				s.ResponseTrailer().Add("X-T", "t1")
+				s.ResponseTrailer().Add("X-T", "t2")
+				s.ResponseTrailer().Add("X-U", "u1")
+				_ = s.Send(&[]byte{1})
+				if failing {
+					e := connect.NewError(connect.CodeAborted, errors.New("stop"))
+					e.Meta().Add("X-Err", "e1")
+					return e
+				}
+				return nil
+			}, connect.WithCodec(rawCodec{"raw"}))
+			desc := fmt.Sprintf("%s bidi call (handler error=%v): Receive until the end, then three more times", proto, failing)
+			c.Begin(desc)
+			c.Count("repeated-receive-probe")
+			got := safely(func() string {
+				opts := []connect.ClientOption{connect.WithCodec(rawCodec{"raw"})}
+				if proto == "grpc" {
+					opts = append(opts, connect.WithGRPC())
+				} else if proto == "grpcweb" {
+					opts = append(opts, connect.WithGRPCWeb())
+				}
+				cl := connect.NewClient[[]byte, []byte](&inprocClient{h: h}, "http://h/s/m", opts...)
+				st := cl.CallBidiStream(context.Background())
+				_ = st.Send(&[]byte{7})
+				_ = st.CloseRequest()
+				var first error
+				for i := 0; i < 10; i++ {
+					if _, err := st.Receive(); err != nil {
+						first = err
+						break
+					}
+				}
+				snapshot := fmt.Sprintf("X-T=%q X-U=%q", st.ResponseTrailer().Values("X-T"), st.ResponseTrailer().Values("X-U"))
+				codes := []string{codeOrOKp(first)}
+				for i := 0; i < 3; i++ {
+					_, err := st.Receive()
+					codes = append(codes, codeOrOKp(err))
+				}
+				after := fmt.Sprintf("X-T=%q X-U=%q", st.ResponseTrailer().Values("X-T"), st.ResponseTrailer().Values("X-U"))
+				_ = st.CloseResponse()
+				meta := ""
+				var ce *connect.Error
+				if failing && errors.As(first, &ce) {
+					meta = fmt.Sprintf(" err-meta X-T=%q", ce.Meta().Values("X-T"))
+				}
+				if snapshot != after {
+					return fmt.Sprintf("trailers changed: first %s, after three more Receives %s (codes %v)", snapshot, after, codes)
+				}
+				return snapshot + meta
+			})
+			want := `X-T=["t1" "t2"] X-U=["u1"]`
+			if failing {
+				want += ` err-meta X-T=["t1" "t2"]`
+			}
+			if got != want {
+				c.Fail("rt-trailer-repeated-receive", desc, got, "the response trailers must be what the handler set, each value once, however often Receive is asked again after the end: "+want)
+			}
+		}
+	}
+}
+
+func codeOrOKp(err error) string {
+	if err == nil {
+		return "ok"
+	}
+	if errors.Is(err, io.EOF) {
+		return "eof"
+	}
+	return connect.CodeOf(err).String()
+}
+
+// statusBeforeEncodingProbe (F30): a non-200 answer to a unary Connect call that names a content
+// encoding this client does not know carries no protocol-level error the client could read: the
+// code is that of the HTTP status, as for every other unreadable non-200 body - not `internal`.
+func statusBeforeEncodingProbe(c *Ctx) {
+	for _, tc := range []struct {
+		status int
+		enc    string
+		want   string
+	}{{503, "br", "unavailable"}, {404, "zstd", "unimplemented"}, {429, "x-unknown", "unavailable"}, {401, "br", "unauthenticated"}, {502, "identity", "unavailable"}} {
+		for _, body := range []string{"", "<html>busy</html>", `{"code":"aborted","message":"m"}`} {
+			desc := fmt.Sprintf("unary Connect call answered %d with Content-Encoding: %s and body %q", tc.status, tc.enc, body)
+			c.Begin(desc)
+			c.Count("status-before-encoding-probe")
+			got := safely(func() string {
+				hc := &staticClient{status: tc.status, header: http.Header{"Content-Type": {"application/json"}, "Content-Encoding": {tc.enc}}, body: []byte(body)}
+				cl := connect.NewClient[[]byte, []byte](hc, "http://h/s/m", connect.WithCodec(rawCodec{"raw"}))
+				_, err := cl.CallUnary(context.Background(), connect.NewRequest(&[]byte{1}))
+				return codeOrOKp(err)
+			})
+			want := tc.want
+			if tc.enc == "identity" && strings.HasPrefix(body, "{") {
+				want = "aborted" // readable after all
+			}
+			if got != want {
+				c.Fail("client-status-before-encoding", desc, got, "a non-200 response without a protocol-level error this client can read takes its code from the HTTP status: "+want)
+			}
+		}
+	}
+}
+
 func extraProbes(c *Ctx) {
 	metadataProbes(c)
 	failingCompressorProbe(c, "wire-error-mislabelled")
@@ -1888,6 +1998,8 @@ func extraProbes(c *Ctx) {
 	unconvertibleDetailProbe(c)
 	cancelAtEndProbe(c)
 	midStreamAccessorProbe(c)
+	repeatedReceiveProbe(c)
+	statusBeforeEncodingProbe(c)
 	// (1) every error a client API returns can be inspected as a Connect error — including the one
 	// from closing a response whose body fails while being drained
 	for _, proto := range []string{"connect", "grpc", "grpcweb"} {
